@@ -117,6 +117,30 @@ Example C11_stop_post_nonvacuous :
 Proof. split; [apply ex_mid_facts|]. split; [apply ex_final_reach|]. split; apply ex_final_facts. Qed.
 Print Assumptions C11_stop_post_nonvacuous.
 
+(* ---- callbacks.  What the LTS does and does not cover.
+   A callback (guard / action / entry / exit / NoTransition code of the controller) runs inside process(e), between the
+   steps LProcess e and LProcEnd e of the executing thread.  It is NOT one atomic step: every Trigger call it makes is the
+   three operations LCall, LReadFlag, LPut, and any other thread may be scheduled before, between and after them (all
+   theorems above quantify over those interleavings; C11_callback_trigger_during_stop_nonvacuous exhibits a state inside
+   a callback, during stop(), where main can move as well).  What IS atomic is the callback's own code between two
+   synchronisation operations of the machine; a preemption there (the GIL may switch) cannot be observed through the
+   machine's flags, queue or thread, so no interleaving of the machine's operations is lost.
+   EXCLUDED by the model (assumptions on the user's callbacks, listed in the MANIFEST):
+   (a) a callback that BLOCKS on a synchronisation primitive of its own (a lock, an Event, another queue, a join, sleeping
+       until another thread acts): the segment LProcess .. LProcEnd is always able to proceed in the LTS, so a callback that
+       waits for a thread which itself waits for the machine (e.g. for stop() to return, or for queue room) is not covered;
+   (b) a callback that calls stop() (Queue.join() would wait for the task the callback itself is part of; Thread.join() on
+       the current thread raises);
+   (c) a callback that raises: run() only handles queue.Empty, so the worker thread would end without task_done() and
+       stop() would block in Queue.join() for ever;
+   (d) a callback that triggers without bound (events carry finite trees of follow-up events). *)
+Example C11_callback_trigger_during_stop_nonvacuous :
+  reach the_prog ex_cfg ex_cb /\ stop_called (sh ex_cb) = true /\ stop_returned (sh ex_cb) = false /\
+  hd_error (cont (tworker ex_cb)) = Some (KCall (Ev 3 [])) /\ enabled_set the_prog true ex_cb = [0; 1] /\
+  map ev_id (begun (log (sh ex_final))) = [1%N; 2%N; 3%N] /\ stop_returned (sh ex_final) = true.
+Proof. split; [apply ex_cb_reach|]. pose proof ex_cb_facts as H. intuition. Qed.
+Print Assumptions C11_callback_trigger_during_stop_nonvacuous.
+
 (* ---- regression: the skeleton as it was before the two `fix:` commits, under the same LTS *)
 Example C11_old_skeleton_stop_deadlocks :
   let s := fst (run_sched old_prog true old_deadlock_sched (init_state old_prog old_cfg)) in
